@@ -114,6 +114,20 @@ def answerClosed (cls : String) (s : State) (g : Ghost) (impl : List String) : O
   let modelObs := showState s true 0 ++ ["closed"]
   pure (verdict (modelObs == impl) none (joinWith "\t" ((cls ++ ":" ++ (if g.dom then "1" else "0") ++ ":0") :: modelObs)))
 
+/-- Scripted-clock variants of `New`: the observation starts with `g<n>`, how
+often `New` read the UnitID generator.  The model reads it once. -/
+def withCalls (impl : List String) (line : String) : String :=
+  if impl.head? == some "g1" then line
+  else if line.startsWith "AGREE" then "DISAGREE" ++ (line.drop 5).toString ++ "\tmodel-clock-reads=g1" else line
+
+/-- `New` at the hour the clock shows; the hour flips right after the `k`-th
+read of the clock inside `New` (there is exactly one). -/
+def openFlip (s : State) (g : Ghost) (l : Nat) (en : Bool) (k : Nat) : Option (State × Ghost) := do
+  let s' ← openOp s l en
+  let g' := ghostStep g (.restart g.clock l en)
+  if k = 1 then pure (advance s' (s'.clock + 1), ghostStep g' (.advance (g'.clock + 1)))
+  else pure (s', g')
+
 def parseU32 (s : String) : Option Nat := do
   let n ← s.toNat?
   if n < U32 then some n else none
@@ -148,6 +162,15 @@ def stepOp (st : State × Ghost) (op : String) (ins impl : List String) : Option
     let g' := ghostStep g (.restart id l en)
     let cls := if id = s.curr.id then "restart.same" else "restart.later"
     pure ((s', g'), ← answer cls s' g' true 0 impl)
+  | "C09.restartflip", [id, l, en, k] =>
+    let id ← parseU32 id
+    let l ← l.toNat?
+    let en ← parseBool en
+    let k ← k.toNat?
+    let sc := advance (closeOp s) id
+    let gc := ghostStep g (.advance id)
+    let (s', g') ← openFlip sc gc l en k
+    pure ((s', g'), withCalls impl (← answer "restart.flip" s' g' true 0 (impl.drop 1)))
   | "C09.setdays", [d] =>
     let d ← d.toNat?
     let s' := setLimitDays s d
@@ -422,6 +445,15 @@ def step (d : DState) (line : String) : DState × String :=
                 let g' := ghostStep g (.advance h)
                 pure ((s', g'), ← answerClosed "down.advance" s' g' impl)) with
               | some (st', o) => ({ st := some st', closed := true }, o)
+              | none => (d, "bad-op")
+            | "C09.openflip", [l, en, k] =>
+              match (do
+                let l ← l.toNat?
+                let en ← parseBool en
+                let k ← k.toNat?
+                let (s', g') ← openFlip s g l en k
+                pure ((s', g'), withCalls impl (← answer "open.flip" s' g' true 0 (impl.drop 1)))) with
+              | some (st', o) => ({ st := some st', closed := false }, o)
               | none => (d, "bad-op")
             | "C09.open", [l, en] =>
               match (do
